@@ -1,14 +1,19 @@
 /-
   C06 — Consistent observations reproduce the network they were derived from.
 
-  Property theorems only (helper lemmas: Gama/Lemmas/C06Real, C06Cogo, C06Median, C06GN).
+  Property theorems only (helper lemmas: Gama/Lemmas/C06*.lean).
   All statements are over ℝ with Real.sqrt / sin / cos / Complex.arg (atan2); the models are the ones
   executed at Float next to the C++ (lean/Driver/Cogo.lean ↔ harness/c06_cogo.cpp).
 
   What is NOT claimed as proved (explored by the end-to-end search of tools/props/c06.py only):
   convergence of the iterated linearisation from perturbed / omitted approximate coordinates,
-  completeness of the Acord2 strategies and the strategies AcordPolar::execute, AcordTraverse,
-  AcordIntersection, AcordWeakChecks and Acord2::get_medians (xy) as wholes, rounding.
+  completeness of the Acord2 strategies, the strategies AcordPolar::execute, AcordTraverse, AcordWeakChecks and
+  ApproximateCoordinates::solve_insertion (no model; the `acord2` stream counts the networks that need one of them),
+  monotonicity of AcordIntersection under added observations (hypothesis `aiMono`), rounding.
+  Round 4: `C06_reset_ok` (ApproxPoint::reset on exact clusters) makes `C06_acord_intersection_sound` a statement
+  without hypotheses about the code; the modelled Acord2 as a whole (`C06_acord2_modelled_sound`,
+  `C06_acord2_modelled_monotone(_partial)`, `…_execute_partial`), executed by `drv_cogo` (op `acord2`) next to the real
+  `Acord2::execute`.
   Round 3b: AcordIntersection::execute with ApproximateCoordinates / ApproxPoint / Select_solution_g2d (all but
   `solve_insertion`, Gama/Model/AcordIntersection.lean), the scheduling of Acord2::execute as a state machine
   (Gama/Model/Acord2.lean) and the fixed point composed with C05's whole pass and C01's `IsLSSolution`.
@@ -29,6 +34,8 @@ import Gama.Lemmas.C06Sched
 import Gama.Lemmas.C06Inter
 import Gama.Lemmas.C06Reset
 import Gama.Lemmas.C06ResetEval
+import Gama.Lemmas.C06Mono
+import Gama.Lemmas.C06Glue
 namespace Gama.Props.C06
 variable {ι : Type} [DecidableEq ι]
 open Gama Gama.Cogo Gama.Median Gama.GN Gama.C06R Gama.C06L Gama.Acord Gama.C06A
@@ -839,6 +846,151 @@ theorem C06_more_obs_monotone_execute {O S : Type} {le : O → O → Prop} {Soun
     (hf' : (executeG measure book fuel' (C06S.oAlgs algs o') s).finished = true) :
     KL (executeG measure book fuel (C06S.oAlgs algs o) s).state (executeG measure book fuel' (C06S.oAlgs algs o') s).state :=
   C06S.acord_more_obs_monotone m measure hr ht o o' hle hle' ext idle fuel fuel' s hs hf hf'
+
+
+/-! ## the MODELLED Acord2 as a whole (round 4; Gama/Lemmas/C06Mono.lean, C06Glue.lean)
+
+`C06M.G5` = the global state with the private state of all five modelled strategy objects; `C06M.ObsSet` = one set of
+observations in the two representations the strategies read (`od` for azimuth / hdiff / zderived / vector; `cls`,
+`keys`, `extra` for intersection — the driver `drv_cogo`, op `acord2`, builds both from the same records and runs
+`Acord.execute` on `modelledAlgs`, next to the real `Acord2::execute`); `modelledAlgs` = the constructor's list
+restricted to AcordAzimuth, AcordHdiff, AcordZderived, AcordVector, AcordIntersection (AcordPolar, AcordTraverse,
+AcordWeakChecks have no model: the statements are about networks on which these three do nothing — the `acord2` stream
+measures how often that is). -/
+
+/-- `Acord2::execute` over the modelled strategies on exact observations (`C06S.ExactObs` for the four, `C06I.ExactCl`
+    for the intersection): every coordinate in the point list afterwards is the true one — any subset of the five
+    strategies in the constructor's order, any fuel, any number of rounds, any sound starting state; no hypothesis about
+    a strategy is left (`C06_acord_execute_sound_modelled` took the intersection's soundness as one) -/
+theorem C06_acord2_modelled_sound {lt : ι → ι → Bool} (htri : Tri lt) (T : Truth ι) (xN : ℝ) (hx0 : 0 ≤ xN)
+    (hx2 : xN < 2 * Real.pi) (tori : Nat → ℝ) (o : C06M.ObsSet ι) (hobs : C06S.ExactObs T xN o.od)
+    (hcl : C06I.ExactCl T xN tori o.cls) (n : Nat) (hasAz hasHd hasZd hasVec hasSp slope : Bool) (fuel : Nat)
+    (g : C06M.G5 ι) (hg : C06M.Sound5 T xN (C06G.IRai tori o.cls.length) g) :
+    C06M.Sound5 T xN (C06G.IRai tori o.cls.length)
+      (execute slope (Priv.clearTraverses id) fuel
+        (modelledAlgs (n + 1) lt o.keys o.extra xN o.od o.cls hasAz hasHd hasZd hasVec hasSp) g).state :=
+  C06G.modelledAlgs_sound htri T xN hx0 hx2 tori o hobs hcl n hasAz hasHd hasZd hasVec hasSp slope fuel g hg
+
+/-- non-vacuity: the network of `C06_acord_intersection_sound`'s example as an observation set, all five strategy objects
+    fresh: the hypotheses hold -/
+example : C06S.ExactObs C06RD.rT 0 ([] : List (Cluster ℕ ℝ)) ∧ C06I.ExactCl C06RD.rT 0 C06RD.rTori C06RD.rCls ∧
+    C06M.Sound5 C06RD.rT 0 (C06G.IRai C06RD.rTori C06RD.rCls.length)
+      ⟨⟨C06RD.rPd, [3], [], []⟩, [], ⟨AzAlg.fresh, HdAlg.fresh, VecAlg.fresh, ZdAlg.fresh, ⟨{}, [none, some 0], salDefault⟩⟩⟩ := by
+  refine ⟨⟨?_, ?_, ?_, ?_, trivial⟩, C06RD.rExact, ⟨C06RD.rSoundXY, C06RD.rSoundZ, ?_, ?_, ?_, ?_, ?_,
+    ⟨C06RD.rOriOK, C06RD.rLen, C06RD.rSalPos⟩⟩⟩
+  · intro f t v h; simp [spObs] at h
+  · intro f t v h; simp [spObs] at h
+  · intro h hh; simp [hdAll] at hh
+  · intro h hh; simp [vecAll] at hh
+  · intro c hc; simp at hc
+  · intro c hc; simp at hc
+  · intro h; simp [AzAlg.fresh] at h
+  · intro h; simp [HdAlg.fresh] at h
+  · intro h; simp [VecAlg.fresh] at h
+
+/-- the hypotheses of the monotonicity theorems (`C06M.MonoHyps`) from exactness: two observation sets `o ⊆ o'`
+    (`C06M.ObsSet.le`: every cluster of `o` is a cluster of `o'` of the same class and station with a sub-list of its
+    observations in the same order, vectors whole), both exact for the same true coordinates, `PointID::operator<` a
+    strict total order, the inner fuel of AcordHdiff / AcordVector larger than the number of their end points (the C++
+    loops are unbounded and terminate).  The SOUNDNESS of the intersection strategy is discharged by
+    `C06_acord_intersection_sound`; what remains is `haiMono`, its step monotonicity on the simulation relation. -/
+theorem C06_acord2_modelled_hyps {lt : ι → ι → Bool} (hord : C06M.StrictTotal lt) (T : Truth ι) (xN : ℝ) (hx0 : 0 ≤ xN)
+    (hx2 : xN < 2 * Real.pi) (tori : Nat → ℝ) (Rai : AiPriv ℝ → AiPriv ℝ → Prop) (n : Nat) (o o' : C06M.ObsSet ι)
+    (hle : C06M.ObsSet.le o o') (hobs : C06S.ExactObs T xN o.od) (hobs' : C06S.ExactObs T xN o'.od)
+    (hcl : C06I.ExactCl T xN tori o.cls) (hcl' : C06I.ExactCl T xN tori o'.cls) (hlen : o'.cls.length = o.cls.length)
+    (f1 : (C06M.hdKeys o.od).length < n + 1) (f2 : (C06M.hdKeys o'.od).length < n + 1)
+    (f3 : (C06M.vecKeys o.od).length < n + 1) (f4 : (C06M.vecKeys o'.od).length < n + 1)
+    (haiMono : C06M.StepMono (C06M.Sound5 T xN (C06G.IRai tori o.cls.length)) (C06M.KL (n + 1) Rai o o')
+      (C06M.idle (aiAlg (n + 1) lt o.keys o.extra xN o.cls)) (C06M.idle (aiAlg (n + 1) lt o'.keys o'.extra xN o'.cls))) :
+    C06M.MonoHyps lt T xN (C06G.IRai tori o.cls.length) Rai n o o' :=
+  C06G.monoHyps_of_exact hord T xN hx0 hx2 tori Rai n o o' hle hobs hobs' hcl hcl' hlen f1 f2 f3 f4 haiMono
+
+/-- clause 6 ("adding further consistent observations never makes a determined point undetermined") for the modelled
+    Acord2 AS A WHOLE, per round: both runs start from the same sound state `g0` related to itself by the simulation
+    relation (`C06M.KL_init`: the state the constructor builds — every strategy object fresh, no candidates, the
+    `missing` sets holding exactly the points without coordinates); then after EVERY number `k` of rounds (each round =
+    the five strategies in the constructor's order, a completed one idling, then get_medians / get_medians_z / clears)
+    every coordinate group determined from `o` is determined from `o'`, and both point lists hold true values only.
+    PROVED step monotonicities (`C06M.hd_stepMono`, `vec_stepMono`, `zd_stepMono`, `az_stepMono` with
+    `azPrepMono_of_exact`, `book_mono`): AcordHdiff and AcordVector (the chaining loop reaches the closure; fuel > number
+    of end points suffices — proved, no "fuel not exhausted" hypothesis), AcordZderived, AcordAzimuth (prepare: key-sorted
+    map, removal, both medians; execute: one pass with PD updated on the way), the bookkeeping.
+    PARTIAL: the FULL statement has no `aiMono` in `H`.  Missing: monotonicity of ApproximateCoordinates in the
+    observation list (more observations ⇒ no point that was intersected becomes unsolved: more pairs, earlier decisive
+    observations in Select_solution_g2d, the two-flag walk of necessary_observations); `C06M.aiMono_of_facts` reduces it
+    to facts about the point list, `C06_acord2_modelled_monotone` is the statement without it. -/
+theorem C06_acord2_modelled_monotone_partial {lt : ι → ι → Bool} {T : Truth ι} {xN : ℝ} {IRai : AiPriv ℝ → Prop}
+    {Rai : AiPriv ℝ → AiPriv ℝ → Prop} {n : Nat} {o o' : C06M.ObsSet ι} (H : C06M.MonoHyps lt T xN IRai Rai n o o')
+    (slope : Bool) (g0 : C06M.G5 ι) (h0 : C06M.Sound5 T xN IRai g0) (hinit : C06M.KL (n + 1) Rai o o' g0 g0) (k : Nat) :
+    C06S.KnownLe (C06S.roundsO (C06M.book5 slope) (C06M.strategies5 (n + 1) lt xN) o k g0)
+      (C06S.roundsO (C06M.book5 slope) (C06M.strategies5 (n + 1) lt xN) o' k g0) ∧
+    C06M.Sound5 T xN IRai (C06S.roundsO (C06M.book5 slope) (C06M.strategies5 (n + 1) lt xN) o k g0) ∧
+    C06M.Sound5 T xN IRai (C06S.roundsO (C06M.book5 slope) (C06M.strategies5 (n + 1) lt xN) o' k g0) :=
+  (C06M.acord2_modelled_monotone_partial H slope g0 h0 hinit k).2
+
+/-- … and WITHOUT any hypothesis about a strategy, for observation sets in which AcordIntersection finds nothing to read
+    (`cls = []`: levelling lines and vectors only, or the other four strategies taken alone): clause 6 per round for
+    AcordAzimuth + AcordHdiff + AcordZderived + AcordVector + bookkeeping -/
+theorem C06_acord2_modelled_monotone {lt : ι → ι → Bool} (hord : C06M.StrictTotal lt) (T : Truth ι) (xN : ℝ) (n : Nat)
+    (o o' : C06M.ObsSet ι) (hle : C06M.ObsSet.le o o') (hobs : C06S.ExactObs T xN o.od)
+    (hobs' : C06S.ExactObs T xN o'.od) (hc : o.cls = []) (hc' : o'.cls = [])
+    (f1 : (C06M.hdKeys o.od).length < n + 1) (f2 : (C06M.hdKeys o'.od).length < n + 1)
+    (f3 : (C06M.vecKeys o.od).length < n + 1) (f4 : (C06M.vecKeys o'.od).length < n + 1)
+    (slope : Bool) (g0 : C06M.G5 ι) (h0 : C06M.Sound5 T xN (fun _ => True) g0)
+    (hinit : C06M.KL (n + 1) (fun _ _ => True) o o' g0 g0) (k : Nat) :
+    C06S.KnownLe (C06S.roundsO (C06M.book5 slope) (C06M.strategies5 (n + 1) lt xN) o k g0)
+      (C06S.roundsO (C06M.book5 slope) (C06M.strategies5 (n + 1) lt xN) o' k g0) ∧
+    C06M.Sound5 T xN (fun _ => True) (C06S.roundsO (C06M.book5 slope) (C06M.strategies5 (n + 1) lt xN) o k g0) ∧
+    C06M.Sound5 T xN (fun _ => True) (C06S.roundsO (C06M.book5 slope) (C06M.strategies5 (n + 1) lt xN) o' k g0) :=
+  C06_acord2_modelled_monotone_partial (C06G.monoHyps_nil hord T xN n o o' hle hobs hobs' hc hc' f1 f2 f3 f4) slope g0 h0
+    hinit k
+
+/-- non-vacuity (`C06M.eO`, `eO'`, `eG`): the levelling line 0 → 1 and the same line with one more height difference
+    1 → 2, started from the constructor's state: all hypotheses hold (`C06M.eOrd`, `eLe`, `C06S.exObs`, `C06M.eObs'`,
+    `eSound`, `eInit` = `KL_init`), point 1 is determined in the run on `o`, hence (by the theorem) in the run on `o'`;
+    point 2 is determined only there — the conclusion is not an equality -/
+example : ((C06S.roundsO (C06M.book5 false) (C06M.strategies5 4 C06M.eLt 0) C06M.eO 1 C06M.eG).st.pd 1).bz = true ∧
+    ((C06S.roundsO (C06M.book5 false) (C06M.strategies5 4 C06M.eLt 0) C06M.eO' 1 C06M.eG).st.pd 1).bz = true ∧
+    ((C06S.roundsO (C06M.book5 false) (C06M.strategies5 4 C06M.eLt 0) C06M.eO' 1 C06M.eG).st.pd 2).bz = true ∧
+    ((C06S.roundsO (C06M.book5 false) (C06M.strategies5 4 C06M.eLt 0) C06M.eO 1 C06M.eG).st.pd 2).bz = false :=
+  ⟨C06M.eRun,
+   (C06_acord2_modelled_monotone C06M.eOrd C06S.exT 0 3 C06M.eO C06M.eO' C06M.eLe C06S.exObs C06M.eObs' rfl rfl
+      (by simp [C06M.hdKeys, C06M.eO, C06S.exOd, hdAll, dedup]) (by simp [C06M.hdKeys, C06M.eO', hdAll, dedup])
+      (by simp [C06M.vecKeys, C06M.eO, C06S.exOd, vecAll, dedup]) (by simp [C06M.vecKeys, C06M.eO', vecAll, dedup])
+      false C06M.eG C06M.eSound C06M.eInit 1).1.2 1 C06M.eRun,
+   C06M.eRun'.1, C06M.eRun'.2⟩
+
+/-- … and for `Acord2::execute` ITSELF — the real do-while with its erase-remove of completed strategies
+    (`modelledAlgs … true true true true true`; `C06M.loop_filter_is_rounds` shows that erasing a completed strategy after
+    the round is the same as letting it idle), both runs finished, started from the constructor's state — with the
+    STOP-RULE LIMITATION made precise: EITHER everything determined from `o` is determined from `o'`, OR the run on the
+    larger set stopped strictly earlier (`rounds' < rounds`).  The second alternative is real for a stopping rule of
+    the form "no progress in ONE round" (`C06_more_obs_stop_rule_witness` below: sound, monotone, extensive steps, and
+    still the larger set loses a point); whether the five modelled strategies can exhibit it is not decided here (it
+    would need: a round of the `o'` run without progress in |missing_xy_| + |missing_z_| is followed by an idle round —
+    the hypothesis `idle` of `C06_more_obs_monotone_execute`); on the real program it is searched end to end
+    (`omitted+more`).  PARTIAL for the same reason as `C06_acord2_modelled_monotone_partial` (`aiMono` in `H`); that
+    AcordIntersection never clears a flag is proved (`C06G.aiAlg_flags`). -/
+theorem C06_acord2_modelled_monotone_execute_partial {lt : ι → ι → Bool} {T : Truth ι} {xN : ℝ}
+    {IRai : AiPriv ℝ → Prop} {Rai : AiPriv ℝ → AiPriv ℝ → Prop} {n : Nat} {o o' : C06M.ObsSet ι}
+    (H : C06M.MonoHyps lt T xN IRai Rai n o o') (slope : Bool) (g0 : C06M.G5 ι) (h0 : C06M.Sound5 T xN IRai g0)
+    (hfresh : C06M.Fresh g0) (hinit : C06M.KL (n + 1) Rai o o' g0 g0) (fuel fuel' : Nat)
+    (hf : (execute slope (Priv.clearTraverses id) fuel (C06M.algs5 (n + 1) lt xN o) g0).finished = true)
+    (hf' : (execute slope (Priv.clearTraverses id) fuel' (C06M.algs5 (n + 1) lt xN o') g0).finished = true) :
+    C06S.KnownLe (execute slope (Priv.clearTraverses id) fuel (C06M.algs5 (n + 1) lt xN o) g0).state
+      (execute slope (Priv.clearTraverses id) fuel' (C06M.algs5 (n + 1) lt xN o') g0).state ∨
+    (execute slope (Priv.clearTraverses id) fuel' (C06M.algs5 (n + 1) lt xN o') g0).rounds <
+      (execute slope (Priv.clearTraverses id) fuel (C06M.algs5 (n + 1) lt xN o) g0).rounds :=
+  C06M.acord2_modelled_execute_monotone_or_stops_earlier_partial H slope
+    (fun g => C06G.aiAlg_flags (n + 1) lt o'.keys o'.extra xN o'.cls g) g0 h0 hfresh hinit fuel fuel' hf hf'
+
+example :
+    C06S.KnownLe (execute false (Priv.clearTraverses id) (Acord.measure C06M.eG + 1) (C06M.algs5 4 C06M.eLt 0 C06M.eO) C06M.eG).state
+      (execute false (Priv.clearTraverses id) (Acord.measure C06M.eG + 1) (C06M.algs5 4 C06M.eLt 0 C06M.eO') C06M.eG).state ∨
+    (execute false (Priv.clearTraverses id) (Acord.measure C06M.eG + 1) (C06M.algs5 4 C06M.eLt 0 C06M.eO') C06M.eG).rounds <
+      (execute false (Priv.clearTraverses id) (Acord.measure C06M.eG + 1) (C06M.algs5 4 C06M.eLt 0 C06M.eO) C06M.eG).rounds :=
+  C06_acord2_modelled_monotone_execute_partial C06M.eHyps false C06M.eG C06M.eSound C06M.eFresh C06M.eInit _ _
+    (C06S.acord_execute_terminates false _ _ C06M.eG 0).2.1 (C06S.acord_execute_terminates false _ _ C06M.eG 0).2.1
 
 /-- … and why these hypotheses cannot be dropped — a witness on the scheduling model: a machine whose steps are sound,
     monotone and extensive, with `o ≤ o'`, where the run on `o` (3 rounds) knows `c` and the run on the LARGER `o'`
